@@ -68,7 +68,9 @@ func (o *ObjectSchema) ReflectedType() reflect.Type {
 
 func (o *ObjectSchema) GetDefaults() map[string]any {
 	if o.defaultValues == nil {
-		o.defaultValues = extractObjectDefaultValues(o.PropertiesValue)
+		// Schemas built by unserialization have no extracted defaults. Compute them without storing the
+		// result: GetDefaults is called from Unserialize, which must be safe for concurrent use.
+		return extractObjectDefaultValues(o.PropertiesValue)
 	}
 	return o.defaultValues
 }
